@@ -128,9 +128,17 @@ type sched struct {
 	redeliv      map[string]int // kind -> count
 	tgtCompleted int
 	tgtAbandoned int
-	maxSeq       int64
-	maxPool      int
-	classes      map[string]int
+
+	// logical clock over sends and completed deliveries (pedersen pubkey-channel analysis)
+	tick        int64
+	r1LastSend  map[int]int64   // node -> tick of its last round-1 broadcast message send
+	r1Sends     map[int]int     // node -> number of round-1 broadcast messages it sent
+	r2Sends     map[int]int     // node -> number of later-round one-way envelopes it sent
+	r1Delivered map[int][]int64 // node -> ticks at which a round-1 broadcast (original or repeat) had been handled by it
+	r1DupsTo    map[int]int
+	maxSeq      int64
+	maxPool     int
+	classes     map[string]int
 }
 
 func newSched(net *fakenet.Net, ids []peer.ID, rng *rand.Rand, mode int, patience time.Duration, dupProfile, dupBudget int, dupAll bool) *sched {
@@ -139,6 +147,7 @@ func newSched(net *fakenet.Net, ids []peer.ID, rng *rand.Rand, mode int, patienc
 		prio: map[string]int{}, wake: make(chan struct{}, 1), stop: make(chan struct{}), fin: make(chan struct{}),
 		classes: map[string]int{}, dupProfile: dupProfile, dupBudget: dupBudget, dupAll: dupAll, dupUsed: map[int]int{},
 		classCache: map[*fakenet.Envelope]string{}, redeliv: map[string]int{}, tgtA: -1,
+		r1LastSend: map[int]int64{}, r1Sends: map[int]int{}, r2Sends: map[int]int{}, r1Delivered: map[int][]int64{}, r1DupsTo: map[int]int{},
 	}
 	// targeted mode: receiver B and laggard sender C (distinct); A is whoever is fast
 	pm := rng.Perm(len(ids))
@@ -151,6 +160,18 @@ func newSched(net *fakenet.Net, ids []peer.ID, rng *rand.Rand, mode int, patienc
 	s.settle = []time.Duration{200 * time.Microsecond, time.Millisecond, 4 * time.Millisecond}[rng.Intn(3)]
 	net.SetPolicy(func(e *fakenet.Envelope) fakenet.Verdict {
 		s.born.Store(e, time.Now())
+		if !e.Duplex {
+			cl := classOf(e)
+			s.mu.Lock()
+			s.tick++
+			if isRound1Msg(cl) {
+				s.r1LastSend[s.idx[e.From]] = s.tick
+				s.r1Sends[s.idx[e.From]]++
+			} else if roundOf(cl) > 1 {
+				s.r2Sends[s.idx[e.From]]++
+			}
+			s.mu.Unlock()
+		}
 		s.sent.Add(1)
 		s.poke()
 
@@ -488,8 +509,16 @@ func (s *sched) deliver(e *fakenet.Envelope) {
 	s.mu.Unlock()
 
 	ch := make(chan struct{})
+	r1 := isRound1Msg(class)
+	toIdx := s.idx[e.To]
 	go func() {
 		s.net.Deliver(e)
+		if r1 {
+			s.mu.Lock()
+			s.tick++
+			s.r1Delivered[toIdx] = append(s.r1Delivered[toIdx], s.tick)
+			s.mu.Unlock()
+		}
 		s.done.Add(1)
 		close(ch)
 		s.poke()
@@ -565,8 +594,16 @@ func (s *sched) deliverClone(r *dupRec, kind string) bool {
 	s.redeliv[kind]++
 	s.mu.Unlock()
 	ch := make(chan struct{})
+	r1 := isRound1Msg(r.class)
 	go func() {
 		s.net.Deliver(e)
+		if r1 {
+			s.mu.Lock()
+			s.tick++
+			s.r1Delivered[r.to] = append(s.r1Delivered[r.to], s.tick)
+			s.r1DupsTo[r.to]++
+			s.mu.Unlock()
+		}
 		s.dupDone.Add(1)
 		close(ch)
 		s.poke()
@@ -602,6 +639,34 @@ func (s *sched) shutdown() {
 			s.net.DropEnvelope(e)
 		}
 	}
+}
+
+// pubkeyQueueOverfilled looks for a node whose round-1 broadcast queue was filled up before its own
+// broadcast completed. The pedersen board queues received node pubkeys in a channel of capacity n
+// that is only drained after the node's own BroadcastNodePubKey returned, and that call ends with
+// an unconditional send of the node's own key into the same channel. If n round-1 broadcasts
+// (n-1 peers + at least one re-delivered copy) were handled by the node before it sent its last
+// own broadcast message, that send can never complete: the node never starts the DKG (sends no
+// deal). Decided on the logical order of sends and completed deliveries, not on time.
+func (s *sched) pubkeyQueueOverfilled(n int) (node, handledBefore, repeats int, ok bool) {
+	s.mu.Lock()
+	defer s.mu.Unlock()
+	for k := 0; k < n; k++ {
+		if s.r1Sends[k] != n-1 || s.r2Sends[k] != 0 || s.r1DupsTo[k] == 0 {
+			continue
+		}
+		before := 0
+		for _, t := range s.r1Delivered[k] {
+			if t < s.r1LastSend[k] {
+				before++
+			}
+		}
+		if before >= n {
+			return k, before, s.r1DupsTo[k], true
+		}
+	}
+
+	return 0, 0, 0, false
 }
 
 type schedStats struct {
